@@ -7,7 +7,7 @@ ROUND = 2
 args = sys.argv[1:]
 if args and args[0] == "--round":
     ROUND = int(args[1]); args = args[2:]
-OFFSET = {2: 3, 3: 5, 4: 7, 5: 9, 6: 11}[ROUND]
+OFFSET = {2: 3, 3: 5, 4: 7, 5: 9, 6: 11, 7: 13}[ROUND]
 for prop in args:
     wt = "/tmp/mut%d_%s" % (ROUND, prop)
     for n in (1, 2):
